@@ -23,7 +23,7 @@ RULE = ("histories of 0-6 steps from {Program(subset/order of libraries), import
 REQUIRED_COUNTERS = ["histories_run", "clean_room_references", "library_snapshots_compared", "duplicate_expectations_checked"]
 ASSUMPTIONS = ["identity of class objects is not compared (package libraries are re-executed per Program)", "order of names in the duplicate message is not judged"]
 
-USER = ["ulib", "ulib_extra", "ulibx", "other", "upkg", "upkg_more", "upkg_one", "upkgzone", "upkg.one", "upkg.two", "updup.a", "usub", "updup.c"]
+USER = ["umeta", "upkg._legacy", "ulib", "ulib_extra", "ulibx", "other", "upkg", "upkg_more", "upkg_one", "upkgzone", "upkg.one", "upkg.two", "updup.a", "usub", "updup.c"]
 CSV = list(arr.CSV_LIBS)
 NC = list(arr.NC_LIBS)
 PROBES = [["ulib"], ["ulib_extra"], ["ulibx"], ["other"], ["upkg"], ["upkg_more"], ["ulib", "other"], ["other", "ulib"], ["ulib", "ulib_extra"], ["ulib", "ulibx"],
@@ -31,14 +31,14 @@ PROBES = [["ulib"], ["ulib_extra"], ["ulibx"], ["other"], ["upkg"], ["upkg_more"
           ["mpilot.libraries.eems.basic", "ulibx"], ["mpilot.libraries.eems.csv"], ["mpilot.libraries.eems.netcdf"], ["mpilot.libraries.eems.csv", "mpilot.libraries.eems.netcdf"],
           ["upkg.one"], ["upkg.one", "upkg.two"], ["upkg.one", "other"], ["upkg_one"], ["updup"], ["updup.a"], ["updup.a", "updup.b"], ["updup.a", "other"],
           ["mpilot.libraries.eems"], ["upkg", "upkg_one"], [], ["usub"], ["mpilot.libraries.eems.basic", "usub"], ["usub", "mpilot.libraries.eems.basic"], CSV + ["usub"],
-          ["updup.a", "updup.c"], ["updup.c"], ["upkg.two"], ["upkg.named", "upkg.one"], ["usub", "other"], ["wdlib"], ["other", "wdlib"]]
+          ["updup.a", "updup.c"], ["updup.c"], ["upkg.two"], ["upkg.named", "upkg.one"], ["usub", "other"], ["wdlib"], ["other", "wdlib"], ["umeta"], ["umeta", "other"], ["upkg._legacy"]]
 # expected duplicates by construction of the harness libraries (None = must succeed)
 DUPS = {("ulib", "ulib_extra"): ["Shared"], ("ulib", "ulibx"): ["Alpha"], ("upkg", "upkg_more"): ["PkgOne"],
         ("mpilot.libraries.eems.csv", "mpilot.libraries.eems.netcdf"): ["EEMSRead", "EEMSWrite"],
         ("updup",): ["Shared"], ("updup.a", "updup.b"): ["Shared"], ("mpilot.libraries.eems",): ["EEMSRead", "EEMSWrite"], ("upkg", "upkg_one"): ["PkgOne"],
         ("mpilot.libraries.eems.basic", "usub"): ["Sum"], ("updup.a", "updup.c"): ["Shared"]}
 MODEL = "A = Alpha()\nB = Shared()"
-EXPECTED_NAMES = {"ulib": ["Alpha", "Shared", "AlphaTwo"], "ulib_extra": ["Beta", "Shared"], "ulibx": ["Gamma", "Alpha"], "other": ["Delta", "Not", "Max"], "upkg_one": ["Underscore", "PkgOne"],
+EXPECTED_NAMES = {"umeta": ["Meta1", "Plain1", "Meta2"], "upkg._legacy": ["Legacy"], "ulib": ["Alpha", "Shared", "AlphaTwo"], "ulib_extra": ["Beta", "Shared"], "ulibx": ["Gamma", "Alpha"], "other": ["Delta", "Not", "Max"], "upkg_one": ["Underscore", "PkgOne"],
                   "upkgzone": ["Zed"], "updup.a": ["Shared", "OnlyA"], "upkg.two": ["PkgTwo"], "upkg.one": ["PkgOne"], "upkg.named": ["Scale"]}
 
 
@@ -174,6 +174,14 @@ def run_case(ctx, case):
                     if lost:
                         ctx.fail("clean-room:command-of-a-requested-library-not-available", {"probe": probe, "library": libname, "missing": lost})
                         break
+            if "upkg" in probe:
+                lost = [n for n in ("PkgTop", "PkgOne", "PkgTwo", "Scale", "Legacy") if n not in ref["library"]]
+                if lost:
+                    ctx.fail("clean-room:command-of-a-module-of-the-requested-package-not-available", {"probe": probe, "missing": lost})
+            for which, r in (ref.get("cli") or {}).items():
+                if which != "-l canopy" and r and r[0] != 0:
+                    ctx.fail("command-line-tool:valid-csv-model-fails-with-%s" % which.replace(" ", "-"), {"probe": probe, "result": r})
+                    break
             # names resolve to the requested libraries only
             for name, e in ref["library"].items():
                 if not any(e["module"] == lib or e["module"].startswith(lib + ".") for lib in probe):
